@@ -434,7 +434,7 @@ def run(ctx):
     ctx.extra["exhaustive_core_size"] = len(cases)
     if ctx.quick:
         rng.shuffle(cases)
-        cases = cases[:ctx.pick(6000, None)]
+        cases = cases[:ctx.pick(5000, None)]
     else:
         ctx.exhaustive = True
     fns = {}
@@ -444,7 +444,7 @@ def run(ctx):
         cases.append(random_routine(rng, big=True))
     for _ in range(ctx.pick(400, 3000)):
         cases.append(random_stationary(rng))
-    for k in range(ctx.pick(2000, 14000)):
+    for k in range(ctx.pick(1600, 14000)):
         c, fn = random_followup(rng, big=(k % 10 == 0))
         fns[id(c)] = fn
         cases.append(c)
